@@ -645,6 +645,8 @@ impl Scenario for WStream {
             2 | 3 => rng.log_range(1, 20) as usize,
             _ => rng.log_range(1, if big { 10_000 } else { 300 }) as usize,
         };
+        // sets larger than any plausible internal block (4096 and beyond) also in the quick tier, rarely
+        let n = if !big && rng.chance(0.001) { rng.range(4097, 9000) as usize } else { n };
         let ids = crate::sc_stream::gen_items(rng, n, ElemT::U32);
         let ids: Vec<u64> = ids.into_iter().filter(|i| *i != PLACEHOLDER && *i < 0xffff_0000).collect();
         let mut ids = if ids.is_empty() { vec![1] } else { ids };
